@@ -366,7 +366,7 @@ fn common_cases(tier: Tier, seed: u64, me: &str) -> Vec<Value> {
     let mut v = Vec::new();
     // exhaustive sweeps at the probe level
     let plans: &[(usize, usize, bool)] = match tier {
-        Tier::Quick => &[(1, 6, false), (2, 5, false), (2, 6, true), (3, 4, false), (3, 5, true)],
+        Tier::Quick => &[(1, 7, false), (2, 5, false), (2, 6, true), (3, 4, false), (3, 5, true)],
         Tier::Thorough => &[(1, 8, false), (2, 6, false), (2, 7, true), (3, 5, false), (3, 6, true)],
     };
     for (k, depth, pre) in plans {
@@ -376,7 +376,7 @@ fn common_cases(tier: Tier, seed: u64, me: &str) -> Vec<Value> {
     }
     v.push(json!({"kind": "fq_sweep", "k": 2, "depth": 4, "pre": false, "block": false, "first": 0}));
     for k in 1..=8usize {
-        v.push(json!({"kind": "fq_walks", "k": k, "len": 200, "n": tier.pick(300, 3000), "seed": mix(seed ^ k as u64), "saturate": false}));
+        v.push(json!({"kind": "fq_walks", "k": k, "len": 200, "n": tier.pick(600, 6000), "seed": mix(seed ^ k as u64), "saturate": false}));
         if k >= 2 {
             v.push(json!({"kind": "fq_walks", "k": k, "len": 300, "n": tier.pick(30, 300), "seed": mix(seed ^ 77 ^ k as u64), "saturate": true}));
         }
@@ -399,7 +399,7 @@ fn common_cases(tier: Tier, seed: u64, me: &str) -> Vec<Value> {
     // socket level
     for ty in FQ_TYPES {
         for n in 1..=6usize {
-            for k in 0..tier.pick(12, 120) {
+            for k in 0..tier.pick(30, 300) {
                 v.push(json!({"kind": "hist", "ty": ty, "peers": n, "per": 5, "late": k % 3, "leavers": k % 2 == 1,
                               "violations": me == "C05", "saturate": false, "seed": mix(seed ^ (k as u64) << 8 ^ n as u64)}));
             }
